@@ -8,7 +8,7 @@ from ..rules import common
 from ..window import lin
 
 TITLE = "HTTP/1.1 message framing is exact, segmentation-independent and bounded"
-TECHNIQUE = 'finite predicate abstraction (one within-bounds atom per peer-supplied length) over clang-14 CFGs; dominance rules for strict numeric parsing and conflict rejection; exception-escape analysis over the data-callback call graph with handler-type coverage; cycle analysis for progress; resume-scan back-up rule; sibling agreement'
+TECHNIQUE = 'finite predicate abstraction (one within-bounds atom per peer-supplied length) over clang-14 CFGs; dominance rules for strict numeric parsing and conflict rejection; exception-escape analysis over the data-callback call graph with handler-type coverage; cycle analysis for progress (roles of positions / match results / parsed lengths found by data flow, helpers of the same class followed); resume-scan rule (back-up, or validated record boundary when the resumed position is used as a record start); sibling agreement'
 HS, HC = "iora::network::HttpServer", "iora::network::HttpClient"
 HSF, HCF, HMF = "iora/network/http_server.hpp", "iora/network/http_client.hpp", "iora/parsers/http_message.hpp"
 
@@ -23,10 +23,16 @@ EXPLANATION = (
     "tests its cap after every append and before framing. R4 no exception can leave the data callback: every throwing primitive reachable "
     "from the transport callbacks up to the thread-pool hand-off lies in a try block whose handlers cover what it throws. R5 every framing "
     "loop iteration consumes input or leaves. R6 segmentation independence, structural half: the server decides on the accumulated buffer "
-    "only (the arriving segment is dead after the append), consumes exactly [0, requestEnd), and every persisted scan position that "
-    "resumes a multi-byte terminator search backs up at least len(terminator)-1 bytes. R7 the client's framing decision follows RFC 9112 "
+    "only (the arriving segment is dead after the append), consumes exactly [0, requestEnd), and every scan position kept between calls "
+    "(followed from the search back through local copies, std::max/min and ?: to the field or reference it is loaded from) is written only "
+    "with values that do not depend on where the previous read ended: a pure search lower bound backs up at least len(terminator)-1 bytes; "
+    "a position that is also used as the start of a record (compared with the match, start of the parsed text, handed to a helper) is "
+    "only ever a validated record boundary — match position + terminator length (+ verified lengths) — never the end of the data. R7 the client's framing decision follows RFC 9112 "
     "§6.3 order. R8 what framing recognises as chunked is decoded before it reaches Request::body, and the last-chunk arm consumes the "
     "trailer section through its empty line.")
+FOLLOWS_HELPERS = {"C15-R4": "call-graph closure from the transport callbacks: a new helper on the I/O-thread path is part of the closure",
+                   "C15-R5": "the cycle analysis is a per-function discipline (scan position moved forward / input removed on every cycle) applied to the framing functions AND to every helper of "
+                             "the same class that receives the scanned buffer; a loop that hands its position or buffer by reference to a function it does not follow is refused, not reported"}
 NOT_DECIDED = ["equality of delivered method/headers/body with the encoded ones for all streams", "wall-clock bounds (only structural progress)", "request-line/header grammar in http_message.hpp",
                "memory exhaustion (bad_alloc) as an exception source"]
 
@@ -57,7 +63,280 @@ def key_of(n):
 NUM_PARSERS = ("stoul", "stoull", "stoi", "stol", "stoll", "strtoul", "strtoull", "strtol", "atoi", "atol")
 
 
-def tainted_defs(f, keys):
+# ------------------------------------------------------------------ name-independent dataflow helpers
+# The rules below identify the ROLES of locals (scan position, match result, parsed length, buffer) from how the values flow
+# — "the variable a find() on the buffer starts from", "the variable std::from_chars writes through a wrapper" — never from
+# what the source happens to call them; single-definition locals are looked through, and helpers of the same class that
+# receive the scanned buffer are followed.
+
+def _vid(n):
+    return n.get("d") if n.get("d") is not None else n.get("n")
+
+
+def _is_size_call(n):
+    n = strip_casts(n)
+    return n is not None and n.get("k") == "mcall" and last(n.get("callee", "")) in ("size", "length") and not [a for a in n.get("args", []) if not a.get("def")]
+
+
+def numeric_out_params(fb):
+    """{(qualified function name, parameter index)}: by-reference integer parameters that receive a number parsed from peer text —
+    the value argument of std::from_chars, and (fixpoint) every wrapper parameter handed on to one"""
+    c = fb.__dict__.get("_c15_nop")
+    if c is not None:
+        return c
+    out = set()
+    fs = [g for g in fb.functions if g.ok and g.file.endswith((HSF, HCF, HMF))]
+    changed = True
+    while changed:
+        changed = False
+        for g in fs:
+            for n in g.nodes.values():
+                if n.get("k") not in ("call", "mcall"):
+                    continue
+                cal = n.get("callee", "")
+                for i, a in enumerate(n.get("args", [])):
+                    a = strip_casts(a)
+                    if a is None or a.get("k") != "var" or a.get("parm") is None:
+                        continue
+                    if ((cal == "std::from_chars" and i == 2) or (cal, i) in out) and (g.name, a["parm"]) not in out and "&" in (a.get("t") or ""):
+                        out.add((g.name, a["parm"]))
+                        changed = True
+    fb.__dict__["_c15_nop"] = out
+    return out
+
+
+def _out_args(fb, n):
+    """argument nodes of call n that the callee may write: by-reference non-const parameters of a callee whose definition is known,
+    the value argument of std::from_chars; for an unknown non-std callee every plain variable argument (conservative)"""
+    if n.get("k") not in ("call", "mcall"):
+        return []
+    cal = n.get("callee", "")
+    args = n.get("args", [])
+    if cal == "std::from_chars":
+        return args[2:3]
+    if cal.startswith("std::") or not cal:
+        return []
+    gs = [g for g in fb.by_name.get(cal, []) if len(g.params) >= len([a for a in args if not a.get("def")])]
+    if not gs:
+        return [a for a in args if (strip_casts(a) or {}).get("k") == "var" and not (strip_casts(a).get("t") or "").startswith("const ")]
+    return [a for i, a in enumerate(args) if i < len(gs[0].params) and gs[0].params[i]["t"].rstrip().endswith("&") and not gs[0].params[i]["t"].startswith("const ")]
+
+
+def var_defs(fb, f):
+    """variable id -> [(Elem, value node | None)]: every definition of a local or parameter — initialiser and `=` carry the value;
+    compound assignment, ++/--, and being handed to a callee's by-reference out-parameter are definitions without one"""
+    c = f.__dict__.get("_c15_defs")
+    if c is not None:
+        return c
+    out = {}
+    for e in f.stmts():
+        n = e.node
+        k = n.get("k")
+        if k == "decl":
+            for v in n["vars"]:
+                out.setdefault(_vid(v), []).append((e, v.get("init")))
+        elif k in ("bin", "opcall") and is_assign(n):
+            l, op, rr = _ap(n)
+            l = strip_casts(l)
+            if l is not None and l.get("k") == "var":
+                out.setdefault(_vid(l), []).append((e, rr if op == "=" else None))
+        elif k == "un" and ("++" in n.get("op", "") or "--" in n.get("op", "")):
+            v = strip_casts(n.get("v"))
+            if v is not None and v.get("k") == "var":
+                out.setdefault(_vid(v), []).append((e, None))
+        elif k in ("call", "mcall"):
+            for a in _out_args(fb, n):
+                a = strip_casts(a)
+                if a is not None and a.get("k") == "var":
+                    out.setdefault(_vid(a), []).append((e, None))
+    f.__dict__["_c15_defs"] = out
+    return out
+
+
+def single_init(fb, f, v):
+    """(Elem, initialiser) of a local that is defined exactly once, by its declaration (a named sub-expression); else None"""
+    if v.get("k") != "var" or v.get("parm") is not None or "&" in (v.get("t") or ""):
+        return None
+    ds = var_defs(fb, f).get(_vid(v), [])
+    if len(ds) == 1 and ds[0][1] is not None and ds[0][0].node.get("k") == "decl":
+        return ds[0]
+    return None
+
+
+def _redefined_between(fb, f, d, use, init):
+    """some variable / field the initialiser reads is written on a way from the declaration d to the use (the name then no longer stands for the expression)"""
+    vids = {_vid(x) for x in walk(init) if x.get("k") == "var"}
+    mems = {show(x) for x in walk(init) if x.get("k") == "member"}
+    bad = []
+    for vid in vids:
+        bad.extend(e for (e, _) in var_defs(fb, f).get(vid, []) if e is not d)
+    if mems:
+        for e in f.stmts():
+            a = asg(e.node)
+            if a and show(strip_casts(a[0])) in mems:
+                bad.append(e)
+    # a write W with d -> W -> use on a path that does not run the declaration again (running it again re-evaluates the initialiser)
+    for w in bad:
+        if w is use:
+            continue
+        if search(f, d, lambda x: x is w, stop=lambda x: x is use or x is d, eh=False) is not None and search(f, w, lambda x: x is use, stop=lambda x: x is d, eh=False) is not None:
+            return True
+    return False
+
+
+def lin_x(fb, f, n, at=None, nodes=None, depth=0):
+    """window.lin with named sub-expressions looked through: a local defined once by its declaration stands for its initialiser
+    (when that is itself linear and nothing it reads changes before the use `at`), so `dataEnd + 2` with
+    `dataEnd = dataStart + len`, `dataStart = nl + 1` is 3 + nl + len.  nodes (optional dict) receives symbol -> node."""
+    n = strip_casts(n)
+    if n is None:
+        return None
+    cv = const_value(n)
+    k = n.get("k")
+    if cv is not None and k in ("int", "sizeof", "cast", "char", "enum", "bin", "un", "gvar", "member", "opcall", "cond"):
+        return (int(cv), ())
+    if k == "var":
+        si = single_init(fb, f, n) if depth < 8 else None
+        if si is not None and (at is None or not _redefined_between(fb, f, si[0], at, si[1])):
+            fm = lin_x(fb, f, si[1], si[0], nodes, depth + 1)
+            if fm is not None:
+                return fm
+        if nodes is not None:
+            nodes.setdefault(n["n"], n)
+        return (0, (n["n"],))
+    if k == "bin" and n.get("op") == "+":
+        a, b = lin_x(fb, f, n["lhs"], at, nodes, depth), lin_x(fb, f, n["rhs"], at, nodes, depth)
+        if a is None or b is None:
+            return None
+        return (a[0] + b[0], tuple(sorted(a[1] + b[1])))
+    if k == "bin" and n.get("op") == "-":
+        a, b = lin_x(fb, f, n["lhs"], at, nodes, depth), lin_x(fb, f, n["rhs"], at, nodes, depth)
+        if a is None or b is None or b[1]:
+            return None
+        return (a[0] - b[0], a[1])
+    if k == "member" or (k == "mcall" and not n.get("args")):
+        if nodes is not None:
+            nodes.setdefault(show(n), n)
+        return (0, (show(n),))
+    return None
+
+
+def scans(fb, f):
+    """the searches of a buffer from a position: one dict per `X.find(T, S)` with an explicit start S — elem, call node, buffer key,
+    start node, terminator text (None if not a literal) and its length in bytes"""
+    c = f.__dict__.get("_c15_scans")
+    if c is not None:
+        return c
+    out = []
+    for e in f.stmts():
+        n = e.node
+        if not (n.get("k") == "mcall" and last(n.get("callee", "")) == "find" and n.get("callee", "").startswith("std::basic_string")):
+            continue
+        args = [a for a in n.get("args", []) if not a.get("def")]
+        if len(args) < 2:
+            continue
+        t = strip_casts(args[0])
+        lit = [x.get("v") for x in walk(t) if x.get("k") == "str"]
+        term, L = None, None
+        if len(lit) == 1 and lit[0] is not None:
+            term, L = lit[0], len(lit[0].encode())
+        elif t is not None and t.get("k") == "char" and t.get("cv") is not None:
+            term, L = chr(t["cv"]), 1
+        out.append({"e": e, "n": n, "buf": key_of(n.get("obj")), "start": strip_casts(args[1]), "term": term, "L": L})
+    f.__dict__["_c15_scans"] = out
+    return out
+
+
+def match_results(fb, f):
+    """variable id -> [scan] for the locals that only ever hold the result of such a search (`nl = buf.find('\\n', st.pos)`)"""
+    c = f.__dict__.get("_c15_matches")
+    if c is not None:
+        return c
+    by_node = {id(s["n"]): s for s in scans(fb, f)}
+    out = {}
+    for vid, ds in var_defs(fb, f).items():
+        ss = [by_node.get(id(strip_casts(v))) if v is not None else None for (_, v) in ds]
+        if ss and all(s is not None for s in ss):
+            out[vid] = ss
+    f.__dict__["_c15_matches"] = out
+    return out
+
+
+def _pkey(n):
+    """text of a position lvalue (local, parameter or field path)"""
+    n = strip_casts(n)
+    return show(n) if n is not None and n.get("k") in ("var", "member") else None
+
+
+def length_sources(fb, f):
+    """[(Elem, variable name)]: where f obtains a number parsed from peer text — a variable handed to a numeric out-parameter
+    (std::from_chars directly or through wrappers), or initialised / assigned from a std::sto* call"""
+    nop = numeric_out_params(fb)
+    out = []
+    for e in f.stmts():
+        n = e.node
+        k = n.get("k")
+        if k in ("call", "mcall"):
+            cal = n.get("callee", "")
+            for i, a in enumerate(n.get("args", [])):
+                if ((cal == "std::from_chars" and i == 2) or (cal, i) in nop) and key_of(a):
+                    out.append((e, key_of(a)))
+        vals = [(v["n"], v.get("init")) for v in n["vars"]] if k == "decl" else ([(key_of(asg(n)[0]), asg(n)[1])] if asg(n) and key_of(asg(n)[0]) else [])
+        for (nm, v) in vals:
+            v = strip_casts(strip_wrappers(v)) if v is not None else None
+            if v is not None and v.get("k") == "call" and last(v.get("callee", "")) in NUM_PARSERS and (v.get("callee", "").startswith("std::") or "::" not in v.get("callee", "")):
+                out.append((e, nm))
+    return out
+
+
+def length_keys(fb, f):
+    """names of the locals of f that hold a peer-supplied length: the sources above and (closure) every local all of whose values
+    are copies of one (or constants), e.g. `contentLength = parsedLength`, `dataLen = static_cast<size_t>(chunkSize)`"""
+    keys = {nm for (_, nm) in length_sources(fb, f)}
+    if not keys:
+        return keys
+    names = {}
+    for e in f.stmts():
+        if e.node.get("k") == "decl":
+            for v in e.node["vars"]:
+                names[_vid(v)] = v["n"]
+    changed = True
+    while changed:
+        changed = False
+        for vid, ds in var_defs(fb, f).items():
+            nm = names.get(vid)
+            if nm is None or nm in keys:
+                continue
+            vals = [strip_casts(strip_wrappers(v)) if v is not None else None for (_, v) in ds]
+            if all(v is not None and (const_value(v) is not None or key_of(v) in keys) for v in vals) and any(key_of(v) in keys for v in vals):
+                keys.add(nm)
+                changed = True
+    return keys
+
+
+def same_class_callee(fb, f, n):
+    """the definition of the function a call node names, when it is a member of f's own class (a helper the code was split into)"""
+    if n.get("k") not in ("call", "mcall"):
+        return None
+    gs = [g for g in fb.by_name.get(n.get("callee", ""), []) if g.ok and g.cls is not None and g.cls == f.cls and g.file == f.file]
+    return gs[0] if len(gs) == 1 else None
+
+
+def scan_helpers(fb, f, seen=None):
+    """helpers of f's class (transitively) that are handed the buffer f scans: the loops moved into them are still f's loops"""
+    seen = seen if seen is not None else {}
+    bufs = {s["buf"] for s in scans(fb, f) if s["buf"]}
+    for e in f.stmts():
+        g = same_class_callee(fb, f, e.node)
+        if g is None or g is f or g.name in seen:
+            continue
+        if any(key_of(strip_views(a)) in bufs for a in e.node.get("args", [])):
+            seen[g.name] = g
+            scan_helpers(fb, g, seen)
+    return seen
+
+
+def tainted_defs(fb, f, keys):
     """Elem -> (key, kind) for definitions of a tracked length: 'src' (fresh peer value), ('copy', other key), ('const', v)"""
     out = {}
     for e in f.stmts():
@@ -71,8 +350,10 @@ def tainted_defs(f, keys):
         a = asg(n)
         if a and key_of(a[0]) in keys:
             out.setdefault(e, []).append((key_of(a[0]), classify_rhs(strip_casts(strip_wrappers(a[1])), keys)))
-        if k in ("call", "mcall") and last(n.get("callee", "")) in ("parseFullUInt", "from_chars", "parseChunkSizeLine"):
-            for x in n.get("args", []):
+        if k in ("call", "mcall"):
+            # a tracked length handed to a callee that may write it (a numeric out-parameter: std::from_chars, directly or through wrappers;
+            # any by-reference parameter of a known callee) holds a fresh peer value afterwards
+            for x in _out_args(fb, n):
                 if key_of(x) in keys:
                     out.setdefault(e, []).append((key_of(x), "src"))
         # aggregate re-assignment: `framing = determineFraming(...)` re-defines framing.contentLength
@@ -145,9 +426,11 @@ def additive_uses(f, keys):
     return out
 
 
-def bounded_lengths(r, f, keys, floor):
-    vocab = Vocab(["b:" + k for k in keys])
-    defs = tainted_defs(f, keys)
+def bounded_lengths(r, fb, f, keys, floor):
+    if not keys:
+        raise AnalysisBroken("%s: no peer-supplied length found (a variable written by a numeric parse)" % last(f.name))
+    vocab = Vocab(["b:" + k for k in sorted(keys)])
+    defs = tainted_defs(fb, f, keys)
 
     def effects(e):
         ops = []
@@ -173,21 +456,40 @@ def bounded_lengths(r, f, keys, floor):
 
 
 def r1(ctx, r):
-    bounded_lengths(r, fn(ctx, HS, "findChunkedRequestEnd", HSF), {"chunkSize"}, 1)
-    bounded_lengths(r, fn(ctx, HS, "handleIncomingData", HSF), {"contentLength", "parsedLength"}, 1)
-    bounded_lengths(r, fn(ctx, HC, "advanceChunked", HCF), {"chunkSize"}, 3)
-    bounded_lengths(r, fn(ctx, HC, "frameResponse", HCF), {"framing.contentLength"}, 1)
-    bounded_lengths(r, fn(ctx, HC, "determineFraming", HCF), {"n"}, 1)
-    # the subtraction in the server's bound is itself safe: remaining = length - pos with pos <= length
-    f = fn(ctx, HS, "findChunkedRequestEnd", HSF)
-    rem = [v for e in f.stmts() if e.node.get("k") == "decl" for v in e.node["vars"] if v["n"] == "remaining"]
+    fb = ctx.fb()
+    # the tracked lengths are found by dataflow (what a numeric parse writes, and its copies), not by name
+    fce = fn(ctx, HS, "findChunkedRequestEnd", HSF)
+    bounded_lengths(r, fb, fce, length_keys(fb, fce), 1)
+    h = fn(ctx, HS, "handleIncomingData", HSF)
+    bounded_lengths(r, fb, h, length_keys(fb, h), 1)
+    ac = fn(ctx, HC, "advanceChunked", HCF)
+    bounded_lengths(r, fb, ac, length_keys(fb, ac), 1)
+    frx = fn(ctx, HC, "frameResponse", HCF)
+    fpar = [p_["n"] for p_ in frx.params if "Framing &" in p_["t"] and not p_["t"].startswith("const ")]       # the framing decision handed in by reference, whatever the parameter is called
+    if len(fpar) != 1:
+        raise AnalysisBroken("frameResponse: Framing& parameter not found")
+    bounded_lengths(r, fb, frx, {fpar[0] + ".contentLength"}, 1)
+    df = fn(ctx, HC, "determineFraming", HCF)
+    pcl = fn(ctx, HC, "parseContentLength", HCF)
+    dkeys = {v["n"] for e in df.stmts() if e.node.get("k") == "decl" for v in e.node["vars"] if v.get("init") is not None and
+             any(x.get("k") in ("call", "mcall") and x.get("callee") == pcl.name for x in walk(v["init"]))}
+    bounded_lengths(r, fb, df, dkeys, 1)
+    # the subtraction in the server's bound is itself safe: the value the chunk size is compared with is X.length() - P, where P is the
+    # position the scan of X starts from (P <= X.length() by the loop guard)
+    f = fce
+    keys = length_keys(fb, f)
+    starts = {(sc["buf"], _pkey(sc["start"])) for sc in scans(fb, f)}
     r.instance()
     ok = False
-    if rem:
-        fm = strip_casts(rem[0].get("init") or {})
-        ok = fm.get("k") == "bin" and fm.get("op") == "-" and "length()" in show(fm["lhs"]) + "size()" * 0 or "size()" in show(fm.get("lhs") or {})
-        ok = ok and key_of(fm.get("rhs")) == "pos"
-    r.expect(ok, f, None, "remaining bytes", "findChunkedRequestEnd does not compute the bytes remaining as data.length() - pos", okdesc="remaining = data.length() - pos")
+    for b in f.blocks.values():
+        for (op, l, rr) in common.cmp_both(strip_casts(b.cond)) if b.cond is not None else []:
+            if key_of(l) in keys and op in (">", ">=") and key_of(rr) not in keys:
+                v = strip_casts(rr)
+                si = single_init(fb, f, v) if v is not None and v.get("k") == "var" else None
+                fm = strip_casts(si[1]) if si else v
+                if fm is not None and fm.get("k") == "bin" and fm.get("op") == "-" and _is_size_call(fm["lhs"]) and (key_of(strip_casts(fm["lhs"]).get("obj")), _pkey(fm["rhs"])) in starts:
+                    ok = True
+    r.expect(ok, f, None, "remaining bytes", "findChunkedRequestEnd does not compare the chunk size with the bytes remaining, computed as <buffer>.length() - <scan position>", okdesc="chunk size compared with data.length() - pos")
 
 
 DIGITS10, DIGITS16 = set("0123456789"), set("0123456789abcdefABCDEF")
@@ -263,7 +565,7 @@ def r2(ctx, r):
         txt = [show(x.node) for x in f.stmts() if "root" in x.raw]
         has_ptr = any(".ptr" in t and end in t and ("==" in t or "!=" in t) for t in txt)
         has_ec = any(".ec" in t and "errc" in t for t in txt)
-        nonempty = any(common.cmp_parts(b.cond) and common.cmp_parts(b.cond)[0] == "==" and (const_value(common.cmp_parts(b.cond)[2]) == 0 or show(strip_casts(b.cond)) in ("b == e", "e == b")) for b in f.blocks.values() if b.cond is not None) or \
+        nonempty = any(common.cmp_parts(b.cond) and common.cmp_parts(b.cond)[0] == "==" and (const_value(common.cmp_parts(b.cond)[2]) == 0 or {key_of(common.cmp_parts(b.cond)[1]), key_of(common.cmp_parts(b.cond)[2])} == {key_of(e.node["args"][0]), key_of(e.node["args"][1])} - {None}) for b in f.blocks.values() if b.cond is not None) or \
             any(("== 0" in t) and ("digits" in t or "size()" in t) for t in txt)
         r.instance()
         r.expect(has_ptr and has_ec and nonempty, f, e, "from_chars result not fully checked", "%s calls std::from_chars but does not test %s: a value followed by junk, an overflow or an empty field is accepted as a length"
@@ -282,8 +584,41 @@ def r2(ctx, r):
             if ok:
                 # on failure nothing uses the (unset) size: the arm leaves the loop / function
                 els = _reach_until_ret(f, sf)
-                ok = not any(x.kind == "stmt" and any(y.get("k") == "var" and y["n"] == "chunkSize" for y in walk(x.node)) for x in els[:8])
+                outs = {key_of(a_) for a_ in _out_args(fb, calls[0].node)} - {None}
+                ok = bool(outs) and not any(x.kind == "stmt" and any(y.get("k") == "var" and y["n"] in outs for y in walk(x.node)) for x in els[:8])
         r.expect(ok, f, calls[0] if calls else None, "chunk size parse", "%s does not parse chunk-size lines through the strict HttpResponse::parseChunkSizeLine with a terminal failure arm" % nm, okdesc="%s: strict chunk-size parse, failure is terminal" % nm)
+    # the two users cut the stream into chunk-size lines differently (the framing scanner at CRLF, the decoder at LF through
+    # getline): they take the same octets for the chunk data only if no accepted line holds a CR or LF — the shared strict helper
+    # must refuse such a line
+    def line_cut(f):
+        if any(x.get("k") == "call" and last(x.get("callee", "")) == "getline" for x in f.nodes.values()):
+            return "LF (getline)"
+        if any(x.get("k") == "mcall" and last(x.get("callee", "")) == "find" and any(y.get("k") == "str" and y.get("v") == "\r\n" for y in walk(x)) for x in f.nodes.values()):
+            return "CRLF (find)"
+        return None
+    cuts = {nm: line_cut(f) for nm, f in users.items()}
+    r.instance()
+    if None in cuts.values() or len(pcs) != 1:
+        raise AnalysisBroken("how %s cut chunk-size lines was not recognised (%s)" % (" / ".join(users), cuts))
+    if len(set(cuts.values())) == 1:
+        r.ok("both chunk-size line users cut lines the same way (%s)" % list(cuts.values())[0])
+    else:
+        pc = pcs[0]
+        acc = [e for e in common.returns(pc) if const_value(strip_casts(e.node.get("v") or {})) != 0]
+        tests = []
+        for b in pc.blocks.values():
+            if b.cond is None:
+                continue
+            for (op, l, rr) in common.cmp_both(strip_casts(b.cond)):
+                l = strip_casts(l)
+                if op in ("==", "!=") and l.get("k") == "mcall" and last(l.get("callee", "")) == "find_first_of" and "npos" in show(rr):
+                    lits = "".join(y.get("v") or "" for y in walk(l) if y.get("k") == "str")
+                    if "\r" in lits and "\n" in lits:
+                        tests.append((b, 1 if op == "!=" else 0))      # index of the `none found` edge
+        okc = bool(acc) and bool(tests) and all(any(search(pc, ("entry",), lambda x, e=e: x is e, eh=False, edge_ok=lambda bb, si, b=b, nf=nf: not (bb is b and si == nf)) is None for (b, nf) in tests) for e in acc)
+        r.expect(okc, pc, acc[0] if acc else None, "chunk-size line with CR/LF accepted", "parseChunkSizeLine accepts a line that holds a CR or LF behind the size (no `find_first_of(\"\\r\\n\") == npos` edge on every accepting path) while its users "
+                 "cut lines differently (%s): for `5;a=\\nb\\r\\nhello…` the framing scanner takes `5;a=\\nb` as the line and the decoder `5;a=`, so the handler receives `b\\r\\nhe` as the body instead of the client a 400"
+                 % ", ".join("%s: %s" % kv for kv in sorted(cuts.items())), okdesc="no accepted chunk-size line holds CR or LF (users cut at %s)" % " / ".join(sorted(set(cuts.values()))))
     h0 = fn(ctx, HS, "handleIncomingData", HSF)
     inv = [b for b in h0.blocks.values() if b.cond is not None and key_of(b.cond) == "invalidChunkSize"]
     r.instance()
@@ -294,8 +629,9 @@ def r2(ctx, r):
     fc = [e for e in pf.stmts() if e.node.get("k") == "call" and last(e.node.get("callee", "")) == "from_chars"]
     rets = [e for e in common.returns(pf) if const_value(strip_casts(e.node.get("v") or {})) is None]
     r.instance()
-    ok = len(fc) == 1 and len(rets) == 1 and ".ptr == e" in show(rets[0].node).replace("r.ptr", ".ptr") and "errc" in show(rets[0].node)
-    emp = [b for b in pf.blocks.values() if b.cond is not None and show(strip_casts(b.cond)) in ("b == e", "e == b")]
+    pb, pe = (pf.params[0]["n"], pf.params[1]["n"]) if len(pf.params) >= 2 else (None, None)      # the range [begin, end) is the first two parameters, whatever they are called
+    ok = len(fc) == 1 and len(rets) == 1 and any(x.get("k") == "member" and last(x.get("n", "")) == "ptr" for (op, l, rr) in [q_ for y in walk(rets[0].node) for q_ in common.cmp_both(y)] if op == "==" and key_of(rr) == pe for x in walk(l)) and "errc" in show(rets[0].node)
+    emp = [b for b in pf.blocks.values() if b.cond is not None and any(op == "==" and key_of(l) == pb and key_of(rr) == pe for (op, l, rr) in common.cmp_both(strip_casts(b.cond)))]
     ok = ok and len(emp) == 1
     r.expect(ok, pf, None, "parseFullUInt strictness", "HttpClient::parseFullUInt no longer requires a non-empty range, errc{} and full consumption", okdesc="parseFullUInt: non-empty, no error, ptr == end")
     # server: conflicting Content-Length and CL+TE reach a rejecting exit before framing
@@ -454,7 +790,7 @@ def r3(ctx, r):
     raw = next((p_["n"] for p_ in frx.params if p_["t"].startswith("std::basic_string<char> &")), None)
     nsh = 0
     for g in (frx, fn(ctx, HC, "advanceChunked", HCF), ex):
-        names = {raw, "buf", "responseData"} if g is not ex else {"responseData"}
+        names = ({raw, "responseData"} | {p_["n"] for p_ in g.params if p_["t"].startswith(("std::basic_string<char> &", "const std::basic_string<char> &"))}) if g is not ex else {"responseData"}
         for e in g.stmts():
             n = e.node
             if n.get("k") == "mcall" and last(n.get("callee", "")) in ("erase", "clear", "resize", "assign", "swap", "pop_back", "shrink_to_fit") and key_of(n.get("obj")) in names:
@@ -575,51 +911,200 @@ def r4(ctx, r):
     r.note("I/O-thread functions analysed: " + ", ".join(sorted({last(v[0].name) for v in funcs.values()})))
 
 
-def r5(ctx, r):
-    # progress statements per loop (a cycle that avoids all of them does not consume input)
-    specs = [
-        (fn(ctx, HS, "findChunkedRequestEnd", HSF), lambda e: asg(e.node) and key_of(asg(e.node)[0]) == "pos" and lin(asg(e.node)[1]) is not None and lin(asg(e.node)[1])[0] >= 1 and ({"chunkSizeLine", "lineEnd"} & set(lin(asg(e.node)[1])[1])),
-         "pos = <CRLF just found> + k (k >= 1)"),
-        (fn(ctx, HC, "advanceChunked", HCF), lambda e: asg(e.node) and show(strip_casts(asg(e.node)[0])) in ("st.pos", "tp") and lin(asg(e.node)[1]) is not None and lin(asg(e.node)[1])[0] >= 1 and
-         ({"dataStart", "tnl"} & set(lin(asg(e.node)[1])[1])) or (e.node.get("k") == "un" and "++" in e.node.get("op", "") and key_of(e.node["v"]) in ("hexEnd", "q")), "st.pos/tp advanced past the line just found"),
-        (fn(ctx, HC, "frameResponse", HCF), lambda e: e.node.get("k") == "mcall" and last(e.node.get("callee", "")) == "erase" and key_of(e.node.get("obj")) == "data" and lin(e.node["args"][1]) is not None and lin(e.node["args"][1])[0] >= 1,
-         "data.erase(0, he + k)"),
-        (fn(ctx, HS, "handleIncomingData", HSF), lambda e: (asg(e.node) and key_of(asg(e.node)[0]) == "dataStr" and "substr(requestEndPos)" in show(asg(e.node)[1])) or
-         (e.node.get("k") == "call" and last(e.node.get("callee", "")) == "getline"), "dataStr = dataStr.substr(requestEndPos) / getline"),
-        (fn(ctx, HC, "parseContentLength", HCF), lambda e: asg(e.node) and key_of(asg(e.node)[0]) == "pos" and lin(asg(e.node)[1]) is not None and lin(asg(e.node)[1])[0] >= 1 and "comma" in lin(asg(e.node)[1])[1], "pos = comma + 1"),
-        (fn(ctx, HC, "parseHeaderBlock", HCF), lambda e: asg(e.node) and key_of(asg(e.node)[0]) == "pos" and any(x in show(asg(e.node)[1]) for x in ("lnl + 2", "lineEnd + 2")), "pos = line end + 2"),
-    ]
-    for (f, is_prog, desc) in specs:
-        prog = {e.block.id for e in f.stmts() if is_prog(e)}
-        if not prog:
-            raise AnalysisBroken("%s: progress statement (%s) not found" % (last(f.name), desc))
-        color, cyc = {}, []
+def _cycles(f, avoid):
+    """back edges of the CFG with the blocks in `avoid` removed: [(from block, to block)]"""
+    import sys
+    sys.setrecursionlimit(max(sys.getrecursionlimit(), 10000))
+    color, cyc = {}, []
 
-        def dfs(b):
-            color[b] = 1
-            for s in f.blocks[b].succs:
-                if s is None or s in prog:
-                    continue
-                if color.get(s) == 1:
-                    cyc.append((b, s))
-                elif s not in color:
-                    dfs(s)
-            color[b] = 2
-        for b in f.blocks:
-            if b not in color and b not in prog:
-                dfs(b)
+    def dfs(b):
+        color[b] = 1
+        for s_ in f.blocks[b].succs:
+            if s_ is None or s_ in avoid:
+                continue
+            if color.get(s_) == 1:
+                cyc.append((b, s_))
+            elif s_ not in color:
+                dfs(s_)
+        color[b] = 2
+    for b in f.blocks:
+        if b not in color and b not in avoid:
+            dfs(b)
+    return cyc
+
+
+def _on_cycle(f, bid):
+    seen, work = set(), [x for x in f.blocks[bid].succs if x is not None]
+    while work:
+        b = work.pop()
+        if b == bid:
+            return True
+        if b in seen:
+            continue
+        seen.add(b)
+        work.extend(x for x in f.blocks[b].succs if x is not None)
+    return False
+
+
+BIG = 10 ** 6
+
+
+def _nonneg(n):
+    """an expression over unsigned variables / fields and non-negative constants with + and * only (wrap-around is C15-R1's subject)"""
+    for x in walk(n):
+        k = x.get("k")
+        if k in ("var", "member"):
+            if "unsigned" not in (x.get("t") or ""):
+                return False
+        elif k == "bin":
+            if x.get("op") not in ("+", "*"):
+                return False
+        elif k == "cast":
+            pass
+        elif const_value(x) is not None and const_value(x) >= 0:
+            pass
+        else:
+            return False
+    return True
+
+
+def _ahead(fb, f, n, P, at, depth=0):
+    """least k for which `n >= (old value of the scan position P) + k` is evident, None if it is not: P itself (0); the result of a
+    search that started at P (>= P); a named sub-expression (its initialiser); both arms of a conditional; sums with constants /
+    unsigned values; the end of the scanned buffer when the loop runs `while (P < X.size())` (then the loop is left: BIG)"""
+    n = strip_casts(n)
+    if n is None or depth > 8:
+        return None
+    if _pkey(n) == P:
+        return 0
+    k = n.get("k")
+    if k == "var":
+        ss = match_results(fb, f).get(_vid(n))
+        if ss:
+            return 0 if all(_pkey(sc["start"]) == P for sc in ss) else None
+        si = single_init(fb, f, n)
+        if si is not None and not _redefined_between(fb, f, si[0], at, si[1]):
+            return _ahead(fb, f, si[1], P, si[0], depth + 1)
+        return None
+    if k == "cond":
+        a, b = _ahead(fb, f, n.get("t"), P, at, depth + 1), _ahead(fb, f, n.get("f"), P, at, depth + 1)
+        return None if a is None or b is None else min(a, b)
+    if _is_size_call(n):
+        X = key_of(n.get("obj"))
+        if X and any(sc["buf"] == X and _pkey(sc["start"]) == P for sc in scans(fb, f)) and \
+                any(op == "<" and _pkey(l) == P and _is_size_call(rr) and key_of(strip_casts(rr).get("obj")) == X for b in f.blocks.values() if b.cond is not None for (op, l, rr) in common.cmp_both(strip_casts(b.cond))):
+            return BIG
+        return None
+    if k == "bin" and n.get("op") == "+":
+        for x, y in ((n["lhs"], n["rhs"]), (n["rhs"], n["lhs"])):
+            a = _ahead(fb, f, x, P, at, depth + 1)
+            if a is not None:
+                fm = lin_x(fb, f, y, at)        # named constants (`constexpr size_t CRLF = 2`) and named sub-expressions count with their value
+                if fm is not None and not fm[1]:
+                    return a + fm[0] if fm[0] >= 0 else None
+                if fm is not None and fm[0] >= 0 and _nonneg(y):
+                    return a + fm[0]
+                return a if _nonneg(y) else None
+        return None
+    if k == "bin" and n.get("op") == "-":
+        a, cv = _ahead(fb, f, n["lhs"], P, at, depth + 1), const_value(strip_casts(n["rhs"]))
+        return a - cv if a is not None and cv is not None and cv >= 0 else None
+    return None
+
+
+def is_progress(fb, f, e):
+    """the element consumes input: it moves a scan position strictly forward (P = <something >= P> + k, k >= 1; P += k + …; ++i on a
+    counter a loop condition bounds), removes a non-empty prefix (X.erase(0, k + …), X = X.substr(n)) or reads a line from a stream.
+    Decided from the data flow between the search and the assignment; no variable is known by name.
+    Returns (what is moved / shortened, description) or None."""
+    n = e.node
+    k = n.get("k")
+    a = asg(n)
+    if a:
+        P = _pkey(a[0])
+        if P:
+            d = _ahead(fb, f, a[1], P, e)
+            if d is not None and d >= 1:
+                return P, "%s = <at least %s + %s>" % (P, P, "end of buffer" if d >= BIG else d)
+            v = strip_views(a[1])
+            if v is not None and v.get("k") == "mcall" and last(v.get("callee", "")) == "substr" and key_of(v.get("obj")) == P and len([x for x in v.get("args", []) if not x.get("def")]) == 1:
+                return P, "%s = %s.substr(n)" % (P, P)
+    if k == "bin" and n.get("op") == "+=" and _pkey(n["lhs"]):
+        fm = lin_x(fb, f, n["rhs"], e)
+        if fm is not None and fm[0] >= 1:
+            return _pkey(n["lhs"]), "%s += <at least %d>" % (_pkey(n["lhs"]), fm[0])
+    if k == "un" and "++" in n.get("op", "") and key_of(n.get("v")):
+        v = key_of(n["v"])
+        if any(op in ("<", "<=", ">", ">=", "!=") and v in (key_of(l), key_of(rr)) for b in f.blocks.values() if b.cond is not None for x in walk(b.cond) for (op, l, rr) in common.cmp_both(x)[:1]):
+            return v, "++%s" % v
+    if k == "mcall" and last(n.get("callee", "")) == "erase" and n.get("callee", "").startswith("std::basic_string"):
+        args = [x for x in n.get("args", []) if not x.get("def")]
+        if len(args) == 2 and const_value(strip_casts(args[0])) == 0:
+            fm = lin_x(fb, f, args[1], e)
+            if fm is not None and fm[0] >= 1:
+                return key_of(n.get("obj")), "%s.erase(0, <at least %d>)" % (key_of(n.get("obj")), fm[0])
+    if k == "call" and last(n.get("callee", "")) == "getline":
+        return None, "getline"
+    return None
+
+
+def r5(ctx, r):
+    fb = ctx.fb()
+    # progress statements per loop (a cycle that avoids all of them does not consume input).  The framing functions, and every helper
+    # of the same class they hand the scanned buffer to (a loop moved into a helper is still checked)
+    roots = [fn(ctx, HS, "findChunkedRequestEnd", HSF), fn(ctx, HC, "advanceChunked", HCF), fn(ctx, HC, "frameResponse", HCF), fn(ctx, HS, "handleIncomingData", HSF),
+             fn(ctx, HC, "parseContentLength", HCF), fn(ctx, HC, "parseHeaderBlock", HCF)]
+    todo, names = [], set()
+    for f in roots:
+        for g in [f] + list(scan_helpers(fb, f).values()):
+            if g.name not in names:
+                names.add(g.name)
+                todo.append((g, g in roots))
+    for (f, is_root) in todo:
+        descs, moved = {}, set()
+        for e in f.stmts():
+            d = is_progress(fb, f, e)
+            if d:
+                descs.setdefault(e.block.id, d[1])
+                moved.add(d[0])
+        prog = set(descs)
+        desc = " | ".join(sorted(set(descs.values()))[:4])
+        has_cycle = _cycles(f, set())
+        if not prog:
+            # a loop that searches the buffer from a position and contains nothing that moves a position forward searches the same bytes
+            # again: that is the defect itself, not an unknown shape
+            spin = [sc for sc in scans(fb, f) if _on_cycle(f, sc["e"].block.id)] if has_cycle else []
+            if spin:
+                r.instance()
+                r.fail(f, spin[0]["e"], "loop without progress", "%s searches `%s` from `%s` in a loop (line %d) in which no statement moves a scan position forward or removes input: the same bytes are examined again forever"
+                       % (last(f.name), spin[0]["buf"], show(spin[0]["start"]), spin[0]["e"].line))
+                continue
+            if is_root or has_cycle:
+                raise AnalysisBroken("%s: no statement that consumes input recognised%s" % (last(f.name), " although it loops" if has_cycle else ""))
+            continue
+        cyc = _cycles(f, prog)
         r.instance()
         if cyc:
+            # a call on the cycle that is handed a scan position / scanned buffer / consumed variable by non-const reference (and is not one
+            # of the helpers followed above) may be where the input is consumed: that shape is refused, not reported
+            tracked = {_pkey(sc["start"]) for sc in scans(fb, f)} | {sc["buf"] for sc in scans(fb, f)} | (moved - {None})
+            maybe = {e.block.id: e for e in f.stmts() if e.node.get("k") in ("call", "mcall") and e.node.get("callee", "") not in names and
+                     any(_pkey(a_) in tracked for a_ in _out_args(fb, e.node))}
+            if maybe and not _cycles(f, prog | set(maybe)):
+                e_ = list(maybe.values())[0]
+                raise AnalysisBroken("%s: the loop hands `%s` by reference to %s, which this rule does not follow — it cannot see whether that call consumes input" % (last(f.name), ", ".join(sorted(_pkey(a_) for a_ in _out_args(fb, e_.node) if _pkey(a_) in tracked)), last(e_.node.get("callee", ""))))
             b = f.blocks[cyc[0][1]]
             ln = next((e.line for e in b.elems if e.line), f.line)
-            r.fail(f, ln, "loop without progress", "%s has a loop iteration (through B%d, line %d) that neither leaves nor performs `%s`: the same bytes are examined again forever" % (last(f.name), b.id, ln, desc))
+            r.fail(f, ln, "loop without progress", "%s has a loop iteration (through B%d, line %d) that neither leaves nor consumes input (none of: %s): the same bytes are examined again forever" % (last(f.name), b.id, ln, desc))
         else:
-            r.ok("%s: every cycle passes `%s`" % (last(f.name), desc))
+            r.ok("%s: every cycle passes one of `%s`" % (last(f.name), desc))
     # requestEndPos >= 1: both definitions are a position past the header terminator
     h = fn(ctx, HS, "handleIncomingData", HSF)
     tot = [v for e in h.stmts() if e.node.get("k") == "decl" for v in e.node["vars"] if v["n"] == "totalExpectedLength"]
     r.instance()
     fm = lin(tot[0]["init"]) if tot and tot[0].get("init") is not None else None
+    if tot and fm is None and any(x.get("k") in ("call", "mcall") and (x.get("callee") or "").startswith("iora::") for x in walk(tot[0].get("init") or {})):
+        raise AnalysisBroken("handleIncomingData: the consumed length is computed by a helper this clause does not follow (`%s`)" % show(tot[0]["init"])[:60])
     r.expect(fm is not None and fm[0] >= 1 and "headerEnd" in fm[1], h, None, "request end position", "the consumed length is not headerEnd + k + contentLength with k >= 1", okdesc="consumed length >= headerEnd + 4")
 
 
@@ -671,61 +1156,235 @@ def r6(ctx, r):
         ok = ok and j.get("k") == "mcall" and last(j["callee"]) == "substr" and key_of(j["args"][0]) == "requestEndPos" and len([a for a in j["args"] if not a.get("def")]) == 1 and elem_dominates(h, rest[0], back[0], eh=False)
     r.expect(ok, h, None, "consumed range", "the dispatched request is not dataStr[0, requestEndPos) with the remainder dataStr[requestEndPos, …) written back to the session buffer (bytes lost or duplicated between pipelined requests)",
              okdesc="request = [0, end), buffer = [end, …)")
-    # resume-scan rule: a persisted scan position used as start of a multi-byte terminator search backs up >= len-1
+    resume_rule(r, fb)
+
+
+def persisted_origins(fb, f, n, seen=None, depth=0):
+    """where the value of a scan start comes from, as far as it outlives the call: [(kind, key, node, function)] with kind 'field' (a
+    member reached through this / a reference or pointer: key = qualified field name) or 'ref' (a by-reference parameter of `function`:
+    key = its name).  Looks through local copies, std::max / std::min, ?:, position arithmetic, and — for a by-value parameter — the
+    argument at every call site in the same file (a scan moved into a helper is still traced to the state it resumes from)."""
+    seen = seen if seen is not None else set()
+    n = strip_casts(n)
+    if n is None or depth > 10:
+        return []
+    k = n.get("k")
+    if k == "member":
+        root = n
+        while root is not None and root.get("k") == "member":
+            root = strip_casts(root.get("b"))
+        if root is not None and (root.get("k") == "this" or (root.get("k") == "var" and ("&" in (root.get("t") or "") or "*" in (root.get("t") or "")))) and field_of(n):
+            return [("field", field_of(n), n, f)]
+        return []
+    if k == "var":
+        if "&" in (n.get("t") or "") and "const " not in (n.get("t") or ""):
+            return [("ref", n["n"], n, f)]
+        if (f.name, _vid(n)) in seen:
+            return []
+        seen.add((f.name, _vid(n)))
+        out = []
+        for (_, v) in var_defs(fb, f).get(_vid(n), []):
+            if v is not None:
+                out += persisted_origins(fb, f, v, seen, depth + 1)
+        if n.get("parm") is not None:
+            for g in fb.functions:
+                if not g.ok or g.file != f.file or g is f:
+                    continue
+                for x in g.nodes.values():
+                    if x.get("k") in ("call", "mcall") and x.get("callee") == f.name and len(x.get("args", [])) > n["parm"]:
+                        out += persisted_origins(fb, g, x["args"][n["parm"]], seen, depth + 1)
+        return out
+    if k == "call" and n.get("callee") in ("std::max", "std::min"):
+        return [o for a in n.get("args", []) for o in persisted_origins(fb, f, a, seen, depth + 1)]
+    if k == "cond":
+        return persisted_origins(fb, f, n.get("t"), seen, depth + 1) + persisted_origins(fb, f, n.get("f"), seen, depth + 1)
+    if k == "bin" and n.get("op") in ("+", "-"):
+        return persisted_origins(fb, f, n["lhs"], seen, depth + 1) + persisted_origins(fb, f, n["rhs"], seen, depth + 1)
+    return []
+
+
+def boundary_uses(fb, f, sc):
+    """reads of the scan start that treat it as the START OF A RECORD rather than as a mere lower bound of the search:
+      (a) it is compared with an expression built on a match result (the empty-line test `nl - 1 == tp`, `lineEnd == pos`);
+      (b) it addresses text: inside an index `X[..]`, an argument of substr / compare / append / assign, added to X.data() / begin();
+      (c) it is handed to a helper of the same class;
+      (d) it is copied (possibly +- a constant) into another local (`p = st.pos`), which then stands for the record start.
+    A search merely skips what is before its start; a record start decides how the bytes after it are interpreted.  Comparisons with
+    the buffer size, assertions and log statements are not such uses.  Returns [(Elem, use node)]."""
+    S = _pkey(sc["start"])
+    if S is None:
+        return []
+    starts = {id(x["start"]) for x in scans(fb, f)}
+    mids = set(match_results(fb, f))
+    out = []
+
+    def has_match(n):
+        return any(x.get("k") == "var" and _vid(x) in mids for x in walk(n))
+
+    def is_s(n):
+        n = strip_casts(n)
+        return n is not None and n.get("k") in ("var", "member") and show(n) == S and id(n) not in starts
+
+    def mentions_s(n):
+        return any(is_s(x) for x in walk(n))
+    for e in f.stmts():
+        n = e.node
+        k = n.get("k")
+        for (op, l, rr) in common.cmp_both(n):
+            if mentions_s(l) and has_match(rr) and not mentions_s(rr):
+                out.append((e, n))                                                                    # (a)
+        if k == "idx" or (k == "opcall" and n.get("op") == "[]"):
+            ie = n.get("i") or n.get("index") or (n.get("args") or [None, None])[1]
+            if ie is not None and mentions_s(ie):
+                out.append((e, n))                                                                    # (b)
+        if k == "mcall" and last(n.get("callee", "")) in ("substr", "compare", "append", "assign", "at") and n.get("callee", "").startswith("std::basic_string") and any(mentions_s(a) for a in n.get("args", [])):
+            out.append((e, n))                                                                        # (b)
+        if k == "bin" and n.get("op") in ("+", "-") and mentions_s(n) and any(x.get("k") == "mcall" and last(x.get("callee", "")) in ("data", "c_str", "begin", "cbegin") for x in walk(n)):
+            out.append((e, n))                                                                        # (b)
+        if k in ("call", "mcall") and same_class_callee(fb, f, n) is not None and any(mentions_s(a) for a in n.get("args", [])):
+            out.append((e, n))                                                                        # (c)
+        vals = [v.get("init") for v in n["vars"]] if k == "decl" else ([asg(n)[1]] if asg(n) and key_of(asg(n)[0]) and _pkey(asg(n)[0]) != S else [])
+        for v in vals:
+            fm = lin(v) if v is not None else None
+            if fm is not None and fm[1] == (S,) and mentions_s(v):
+                out.append((e, n))                                                                    # (d)
+    return out
+
+
+def boundary_value(fb, g, v, at, depth=0):
+    """is the value a VALIDATED RECORD BOUNDARY?  (True, '') when it is 0 (start of the buffer), or a sum that contains the result R of a
+    terminator search plus at least that terminator's length (the byte after a terminator just found: `nl + 1`, `he + 4`, also with a
+    verified length on top: `nl + 1 + chunkSize + 2`), or is built on a position that is itself always one (another persisted
+    position, a variable all of whose values are).  (False, why) when it is derived from the END OF THE DATA (size()/length()) —
+    where the data ends depends on how the stream was cut into reads — or stops inside the terminator.  (None, why) when it cannot
+    be classified."""
+    v = strip_casts(v)
+    if v is None or depth > 6:
+        return None, "value not understood"
+    if const_value(v) == 0:
+        return True, ""
+    if v.get("k") == "cond":
+        res = [boundary_value(fb, g, v.get(x), at, depth + 1) for x in ("t", "f")]
+        for (ok, why) in res:
+            if ok is not True:
+                return ok, why
+        return True, ""
+    if v.get("k") == "call" and v.get("callee") in ("std::max", "std::min"):
+        res = [boundary_value(fb, g, a, at, depth + 1) for a in v.get("args", [])]
+        for (ok, why) in res:
+            if ok is not True:
+                return ok, why
+        return True, ""
+    nodes = {}
+    fm = lin_x(fb, g, v, at, nodes)
+    if fm is None:
+        if any(_is_size_call(x) for x in walk(v)):
+            return False, "it is derived from the end of the data (`%s`)" % show(v)[:50]
+        return None, "`%s` is not a sum of positions and constants" % show(v)[:50]
+    keys = length_keys(fb, g)
+    anchors_, bad = [], None
+    for sym in fm[1]:
+        x = nodes.get(sym)
+        if x is None:
+            return None, "`%s` not resolved" % sym
+        if _is_size_call(x):
+            return False, "it is the end of the data received so far (`%s`), which is wherever the last read happened to stop" % sym
+        if x.get("k") == "var":
+            ms = match_results(fb, g).get(_vid(x))
+            if ms:
+                Ls = [m["L"] for m in ms]
+                if None in Ls:
+                    return None, "terminator of the search that yields `%s` is not a literal" % sym
+                anchors_.append((sym, max(Ls)))
+                continue
+            if sym in keys:
+                continue       # a parsed length (its own terminator is verified by C15-R8's CRLF clause)
+            vals = [(e, val) for (e, val) in var_defs(fb, g).get(_vid(x), [])]
+            if vals and all(val is not None for (_, val) in vals) and (x.get("parm") is None or "&" in (x.get("t") or "")):
+                for (e, val) in vals:
+                    ok, why = boundary_value(fb, g, val, e, depth + 1)
+                    if ok is not True:
+                        return ok, why
+                anchors_.append((sym, 0))
+                continue
+            return None, "`%s` is a value this function receives / computes in a way the rule cannot follow" % sym
+        if x.get("k") == "member":
+            if persisted_origins(fb, g, x):
+                anchors_.append((sym, 0))       # another persisted position: its own writes are judged by this rule
+                continue
+            return None, "`%s` not understood" % sym
+        return None, "`%s` not understood" % sym
+    if not anchors_:
+        return None, "`%s` contains no position" % show(v)[:50]
+    need = min(L for (_, L) in anchors_)
+    if fm[0] < need:
+        return False, "it is %d byte(s) past the match `%s` of a %d-byte terminator, i.e. inside the terminator / the line" % (fm[0], anchors_[0][0], need)
+    return True, ""
+
+
+def resume_rule(r, fb):
+    """Segmentation independence of every scan that RESUMES from a position kept between calls (a field reached through this / a
+    reference, or a by-reference parameter): where the scan restarts must not depend on where the previous read ended.
+      (a) the position is only the lower bound of a terminator search: every value stored into it is 0, a match-derived position, or
+          backs up at least len(terminator)-1 bytes from the end of the data (a terminator cut by the read boundary is still found);
+      (b) the position is ALSO used as the start of a record (compared with the match, start of the text parsed): every value stored
+          into it must be a validated record boundary — match position + terminator length (+ verified lengths) — never the end of
+          the data or any other offset inside a line: `resume = buf.size()` makes `nl - 1 == resume` (the empty-line test) and the
+          chunk-size parse start depend on whether a read ended in the middle of a line."""
     n = 0
     for f in fb.functions:
         if not f.ok or not f.file.endswith((HSF, HCF)):
             continue
-        for e in f.stmts():
-            nn = e.node
-            if not (nn.get("k") == "mcall" and last(nn.get("callee", "")) == "find" and len([a for a in nn.get("args", []) if not a.get("def")]) >= 2):
+        for sc in scans(fb, f):
+            origins = persisted_origins(fb, f, sc["start"])
+            if not origins:
                 continue
-            lit = [x.get("v") for x in walk(nn["args"][0]) if x.get("k") == "str"]
-            if len(lit) != 1 or lit[0] is None or len(lit[0]) < 2:
-                continue
-            start = strip_casts(nn["args"][1])
-            L = len(lit[0].encode())
-            buf = key_of(nn.get("obj"))
-            # the start position itself persists (reference parameter / member) …
-            targets = []      # (function, write elem, lhs text, rhs)
-            if start.get("k") == "member" or (start.get("k") == "var" and "&" in (start.get("t") or "")):
-                key = show(start)
-                for w in f.stmts():
-                    a = asg(w.node)
-                    if a and show(strip_casts(a[0])) == key:
-                        targets.append((f, w, key, a[1]))
-            elif start.get("k") == "var":
-                # … or is a local copy of a persisted field: every write to that field anywhere in the file counts
-                fields = set()
-                for w in f.stmts():
-                    rhs = None
-                    if w.node.get("k") == "decl":
-                        for v in w.node["vars"]:
-                            if v["n"] == start["n"] and v.get("init") is not None:
-                                rhs = strip_casts(v["init"])
-                    a = asg(w.node)
-                    if a and key_of(a[0]) == start["n"]:
-                        rhs = strip_casts(a[1])
-                    if rhs is not None and rhs.get("k") == "member" and field_of(rhs):
-                        fields.add(field_of(rhs))
-                for g in fb.functions:
-                    if not g.ok or g.file != f.file:
-                        continue
-                    for w in g.stmts():
+            buses = boundary_uses(fb, f, sc)
+            done = set()
+            for (kind, key, onode, of) in origins:
+                if (kind, key) in done:
+                    continue
+                done.add((kind, key))
+                targets = []      # (function, write elem, lhs text, rhs)
+                if kind == "ref":
+                    for w in of.stmts():
                         a = asg(w.node)
-                        if a and strip_casts(a[0]).get("k") == "member" and field_of(strip_casts(a[0])) in fields:
-                            targets.append((g, w, show(strip_casts(a[0])), a[1]))
-            if not targets:
-                continue
-            n += 1
-            for (g, w, key, rhs) in targets:
-                r.instance()
-                ok, why = resume_value_ok(rhs, buf, L)
-                r.expect(ok, g, w, "resume position: %s" % last(key.replace("->", ".").split(".")[-1]), "%s stores `%s` as the position from which the search for the %d-byte terminator %r resumes after more bytes arrive; %s — a terminator cut by a read boundary "
-                         "is never found (the message is lost until timeout, or a later blank line inside the body is taken for the end of the headers)" % (last(g.name), show(rhs)[:60], L, lit[0], why),
-                         okdesc="%s: resume position backs up >= %d bytes" % (last(g.name), L - 1))
-    if n < 1:
-        raise AnalysisBroken("no persisted resume position found (expected HttpClient::frameResponse headerScanPos)")
+                        if a and key_of(a[0]) == key:
+                            targets.append((of, w, key, a[1]))
+                else:
+                    # every write to that field anywhere in the file counts
+                    for g in fb.functions:
+                        if not g.ok or g.file != f.file:
+                            continue
+                        for w in g.stmts():
+                            a = asg(w.node)
+                            if a and strip_casts(a[0]).get("k") == "member" and field_of(strip_casts(a[0])) == key:
+                                targets.append((g, w, show(strip_casts(a[0])), a[1]))
+                if not targets:
+                    continue
+                n += 1
+                L = sc["L"]
+                for (g, w, lhs, rhs) in targets:
+                    r.instance()
+                    nm = last(lhs.replace("->", ".").split(".")[-1])
+                    if buses:
+                        ok, why = boundary_value(fb, g, rhs, w)
+                        if ok is None:
+                            raise AnalysisBroken("%s: value `%s` stored into the resume position %s cannot be classified (%s)" % (last(g.name), show(rhs)[:60], lhs, why))
+                        use = buses[0]
+                        r.expect(ok, g, w, "resume position is not a record boundary: %s" % nm, "%s stores `%s` into `%s`, the position from which %s resumes its scan of `%s` when more bytes have arrived, and %s also uses that position as "
+                                 "the START OF A RECORD (`%s`, line %d); %s — so whether the terminator / empty line is recognised depends on where a read ended (a CRLF cut between CR and LF is never seen as the empty line: "
+                                 "the message waits for ever; a read ending before a field line's CRLF is taken for the empty line)" % (last(g.name), show(rhs)[:60], lhs, last(f.name), sc["buf"], last(f.name), show(use[0].node)[:60], use[0].line, why),
+                                 okdesc="%s: %s = %s is a validated record boundary" % (last(g.name), lhs, show(rhs)[:40]))
+                    else:
+                        if L is None:
+                            raise AnalysisBroken("%s: the terminator searched from the persisted position %s is not a literal" % (last(f.name), lhs))
+                        ok, why = resume_value_ok(rhs, sc["buf"], L)
+                        r.expect(ok, g, w, "resume position: %s" % nm, "%s stores `%s` as the position from which the search for the %d-byte terminator %r resumes after more bytes arrive; %s — a terminator cut by a read boundary "
+                                 "is never found (the message is lost until timeout, or a later blank line inside the body is taken for the end of the headers)" % (last(g.name), show(rhs)[:60], L, sc["term"], why),
+                                 okdesc="%s: resume position backs up >= %d bytes" % (last(g.name), L - 1))
+    if n < 2:
+        raise AnalysisBroken("only %d persisted resume positions found (expected the client's header scan position and its chunk-decoder position)" % n)
 
 
 def resume_value_ok(v, buf, L):
@@ -885,70 +1544,102 @@ def r8(ctx, r):
                 if any(is400(x) for x in arm) and any(x.kind == "stmt" and x.node.get("k") == "ret" for x in arm) and search(h, ("block", bsf), "exit", stop=is400, eh=False) is None:
                     okrej = True
     r.expect(okrej, h, dv[0] if dv else None, "unsupported transfer coding framed", "a Transfer-Encoding that is not exactly `chunked` does not end in 400 + return: its body length is guessed", okdesc="Transfer-Encoding ≠ chunked → 400")
-    dec = [e for e in p.stmts() if asg(e.node) and show(strip_casts(asg(e.node)[0])) == "req.body" and "parseChunkedBody" in show(asg(e.node)[1])]
+    # (the handler's request object is recognised by the field written — HttpServer::Request::body —, not by what the local is called)
+    is_body = lambda x: (field_of(strip_casts(x)) or "").endswith("HttpServer::Request::body")
+    dec = [e for e in p.stmts() if asg(e.node) and is_body(asg(e.node)[0]) and "parseChunkedBody" in show(asg(e.node)[1])]
     r.instance()
     bparams = [p_["n"] for p_ in p.params if p_["t"] == "bool"]
     okdec = len(dec) == 1 and len(bparams) == 1 and any(key_of(c) == bparams[0] and t for (c, t) in dominating_facts(p, dec[0]))
     if okdec:
-        plain = [e for e in p.stmts() if asg(e.node) and show(strip_casts(asg(e.node)[0])) == "req.body" and e is not dec[0]]
+        plain = [e for e in p.stmts() if asg(e.node) and is_body(asg(e.node)[0]) and e is not dec[0]]
         okdec = len(plain) == 1 and elem_dominates(p, plain[0], dec[0], eh=False)
         # the argument handed over is the framing decision
         lams = [lf for (ln, lf) in h.lambdas if any(x.get("k") == "mcall" and x.get("callee") == p.name for x in lf.nodes.values())]
         okdec = okdec and bool(lams) and all(any(key_of(strip_casts(x["args"][-1])) == flag for x in lf.nodes.values() if x.get("k") == "mcall" and x.get("callee") == p.name) for lf in lams)
     r.expect(okdec, p, dec[0] if dec else None, "chunked body not decoded", "the decoding decision of processHttpRequest is not the framing decision of handleIncomingData (a bool handed over with the request): a request framed as "
              "chunked can reach Request::body still chunk-encoded, or a body framed by Content-Length be chunk-decoded", okdesc="decode ⇔ framing decision (passed along); plain body assigned first")
-    # chunk data is followed by CRLF: checked by both siblings before the position moves past it
-    for (f_, buf, base, label) in ((fn(ctx, HS, "findChunkedRequestEnd", HSF), "data", "pos", "server"), (fn(ctx, HC, "advanceChunked", HCF), "buf", "dataStart", "client")):
-        advs = [e for e in f_.stmts() if (e.node.get("k") == "bin" and e.node.get("op") == "+=" and key_of(e.node["lhs"]) in (base, "st.pos") and "chunkSize" in show(e.node["rhs"])) or
-                (asg(e.node) and show(strip_casts(asg(e.node)[0])) in (base, "st.pos") and "chunkSize" in show(asg(e.node)[1]))]
+    # chunk data is followed by CRLF: checked by both siblings before the position moves past it.  The advance is found by data flow
+    # (a scan position receives a value that contains the parsed length); the two bytes that must have been compared with CR and LF are
+    # the two bytes just before the new position, whatever the sub-expressions are called
+    fb = ctx.fb()
+    for (f_, label) in ((fn(ctx, HS, "findChunkedRequestEnd", HSF), "server"), (fn(ctx, HC, "advanceChunked", HCF), "client")):
+        keys = length_keys(fb, f_)
+        starts = {_pkey(sc["start"]) for sc in scans(fb, f_)}
+        advs = []
+        for e in f_.stmts():
+            n_ = e.node
+            a = asg(n_)
+            if a and _pkey(a[0]) in starts:
+                fm = lin_x(fb, f_, a[1], e)
+                if fm is not None and any(s_ in keys for s_ in fm[1]):
+                    advs.append((e, fm))
+            elif n_.get("k") == "bin" and n_.get("op") == "+=" and _pkey(n_["lhs"]) in starts:
+                fm = lin_x(fb, f_, n_["rhs"], e)
+                if fm is not None and any(s_ in keys for s_ in fm[1]):
+                    advs.append((e, (fm[0], tuple(sorted(fm[1] + (_pkey(n_["lhs"]),))))))
         r.instance()
         if not advs:
             raise AnalysisBroken("%s: advance past the chunk data not found" % last(f_.name))
-        seen = set()
-        for (c, truth) in dominating_facts(f_, advs[0]):
-            cp = common.cmp_parts(strip_casts(c))
-            if not cp:
-                continue
-            idx = [x for x in walk(cp[1]) if (x.get("k") == "idx" or (x.get("k") == "opcall" and x.get("op") == "[]"))]
-            cv = const_value(cp[2])
-            if len(idx) == 1 and cv in (13, 10) and ((cp[0] == "!=" and not truth) or (cp[0] == "==" and truth)):
-                ie = idx[0].get("i") or idx[0].get("index") or (idx[0].get("args") or [None, None])[1]
-                fm = lin(ie)
-                if fm is not None and sorted(fm[1]) == sorted([base, "chunkSize"]):
-                    seen.add((fm[0], cv))
-        r.expect({(0, 13), (1, 10)} <= seen, f_, advs[0], "chunk data terminator unchecked (%s)" % label, "%s moves past a chunk's data without having found CR LF at %s[%s + chunkSize] and [+1]: `5 CRLF helloXX 0 CRLF CRLF` is "
-                 "framed as a valid body (the sibling endpoint rejects it) — framing by guesswork" % (last(f_.name), buf, base), okdesc="%s: CRLF after chunk data verified" % label)
-    # trailer section: the last-chunk arm returns a position only behind an empty-line test
+        for (adv, A_) in advs:
+            seen = set()
+            for (c, truth) in dominating_facts(f_, adv):
+                cp = common.cmp_parts(strip_casts(c))
+                if not cp:
+                    continue
+                idx = [x for x in walk(cp[1]) if (x.get("k") == "idx" or (x.get("k") == "opcall" and x.get("op") == "[]"))]
+                cv = const_value(cp[2])
+                if len(idx) == 1 and cv in (13, 10) and ((cp[0] == "!=" and not truth) or (cp[0] == "==" and truth)):
+                    ie = idx[0].get("i") or idx[0].get("index") or (idx[0].get("args") or [None, None])[1]
+                    fm = lin_x(fb, f_, ie, adv)
+                    if fm is not None and fm[1] == A_[1]:
+                        seen.add((A_[0] - fm[0], cv))
+            r.expect({(2, 13), (1, 10)} <= seen, f_, adv, "chunk data terminator unchecked (%s)" % label, "%s moves its position past a chunk's data (`%s`) without having found CR LF in the two bytes just before the new position: "
+                     "`5 CRLF helloXX 0 CRLF CRLF` is framed as a valid body (the sibling endpoint rejects it) — framing by guesswork" % (last(f_.name), show(adv.node)[:50]), okdesc="%s: CRLF after chunk data verified" % label)
+    # trailer section: the last-chunk arm returns a position only behind an empty-line test — `the line end just found is where the line
+    # started` (match result == the position its search started from), in this function or in the helper the arm returns through
     f = fn(ctx, HS, "findChunkedRequestEnd", HSF)
-    zb = [b for b in f.blocks.values() if b.cond is not None and common.cmp_parts(b.cond) and key_of(common.cmp_parts(b.cond)[1]) == "chunkSize" and const_value(common.cmp_parts(b.cond)[2]) == 0 and common.cmp_parts(b.cond)[0] == "=="]
+    keys = length_keys(fb, f)
+    zb = [(b, 0 if op == "==" else 1) for b in f.blocks.values() if b.cond is not None and len(b.succs) == 2 for (op, l, rr) in common.cmp_both(strip_casts(b.cond))[:1] if op in ("==", "!=") and key_of(l) in keys and const_value(rr) == 0]
     r.instance()
-    if r.expect(len(zb) == 1, f, None, "last chunk arm", "findChunkedRequestEnd has no `chunkSize == 0` arm"):
-        arm = _reach_until_ret(f, zb[0].succs[0])
-        rets = [e for e in arm if e.kind == "stmt" and e.node.get("k") == "ret" and "npos" not in show(e.node)]
+    if r.expect(len(zb) == 1, f, None, "last chunk arm", "findChunkedRequestEnd has no `<chunk size> == 0` arm"):
+        arm = _reach_until_ret(f, zb[0][0].succs[zb[0][1]])
+        rets = [(f, e) for e in arm if e.kind == "stmt" and e.node.get("k") == "ret" and "npos" not in show(e.node)]
+        four = any(x.get("k") == "str" and x.get("v") == "\r\n\r\n" for y in arm if y.kind == "stmt" for x in walk(y.node))
+        through = []
+        for (_, e) in list(rets):
+            g = same_class_callee(fb, f, strip_casts(e.node.get("v") or {}) or {})
+            if g is not None:
+                rets.remove((f, e))
+                through.append(g)
+                rets += [(g, x) for x in common.returns(g) if "root" in x.raw and "npos" not in show(x.node)]
+                four = four or any(x.get("k") == "str" and x.get("v") == "\r\n\r\n" for x in g.nodes.values())
         r.instance()
         ok = bool(rets)
-        for e in rets:
-            facts = dominating_facts(f, e)
+        for (fx, e) in rets:
             empty_line = False
-            for (c, truth) in facts:
-                cp = common.cmp_parts(strip_casts(c))
-                if cp and ((cp[0] == "==" and truth) or (cp[0] == "!=" and not truth)):
-                    ks = {key_of(cp[1]), key_of(cp[2])}
-                    fms = [lin(cp[1]), lin(cp[2])]
-                    # `lineEnd == pos` (the CRLF just found starts where the line starts) or a 4-byte terminator search
-                    if None not in ks and len(ks) == 2 and "chunkSize" not in ks:
+            for (c, truth) in dominating_facts(fx, e):
+                for (op, l, rr) in common.cmp_both(strip_casts(c)):
+                    if not ((op == "==" and truth) or (op == "!=" and not truth)):
+                        continue
+                    nodes = {}
+                    fm = lin_x(fb, fx, l, e, nodes)
+                    if fm is None or len(fm[1]) != 1 or fm[0] > 0 or nodes.get(fm[1][0], {}).get("k") != "var":
+                        continue
+                    ms = match_results(fb, fx).get(_vid(nodes[fm[1][0]]))
+                    if ms and all(_pkey(m["start"]) is not None and _pkey(m["start"]) == _pkey(rr) for m in ms):
                         empty_line = True
-            four = any(x.get("k") == "str" and x.get("v") == "\r\n\r\n" for y in arm if y.kind == "stmt" for x in walk(y.node))
             ok = ok and (empty_line or four)
-        r.expect(ok, f, rets[0] if rets else None, "trailer section not consumed", "after the last chunk findChunkedRequestEnd returns the position after the FIRST line break: with a trailer section (`0 CRLF field: v CRLF CRLF`) the request ends "
-                 "one line early and the remaining CRLF is parsed as the start of the next pipelined request (the client's advanceChunked loops to the empty line)", okdesc="last chunk: trailer lines consumed through the empty line")
+        r.expect(ok, rets[0][0] if rets else f, rets[0][1] if rets else None, "trailer section not consumed", "after the last chunk findChunkedRequestEnd%s returns the position after the FIRST line break: with a trailer section (`0 CRLF field: v CRLF CRLF`) the request ends "
+                 "one line early and the remaining CRLF is parsed as the start of the next pipelined request (the client's advanceChunked loops to the empty line)" % ((" (through %s)" % ", ".join(last(g.name) for g in through)) if through else ""),
+                 okdesc="last chunk: trailer lines consumed through the empty line")
 
 
 def anchors(ctx, r):
-    tab = [(fn(ctx, HS, "findChunkedRequestEnd", HSF), ["chunkSize", "pos", "remaining", "data"]),
-           (fn(ctx, HS, "handleIncomingData", HSF), ["contentLength", "parsedLength", "hasContentLength", "isChunked", "totalExpectedLength", "invalidChunkSize", "dataStr", "headerEnd", "headerSection", "requestData", "requestEndPos", "value"]),
-           (fn(ctx, HC, "advanceChunked", HCF), ["chunkSize", "dataStart"]), (fn(ctx, HC, "frameResponse", HCF), ["framing", "data", "he", "headerScanPos"]), (fn(ctx, HC, "determineFraming", HCF), ["n", "teIt", "clIt"]),
-           (fn(ctx, HC, "parseContentLength", HCF), ["val", "result", "pos", "comma"]), (fn(ctx, HC, "parseHeaderBlock", HCF), ["value", "clValue", "pos"]), (fn(ctx, HC, "executeRequest", HCF), ["responseData", "effectiveCap", "len"])]
+    # (findChunkedRequestEnd, advanceChunked, frameResponse, parseFullUInt: no names — their rules find positions, match results, parsed
+    # lengths and buffers by data flow)
+    tab = [(fn(ctx, HS, "handleIncomingData", HSF), ["contentLength", "parsedLength", "hasContentLength", "isChunked", "totalExpectedLength", "invalidChunkSize", "dataStr", "headerEnd", "headerSection", "requestData", "requestEndPos", "value"]),
+           (fn(ctx, HC, "determineFraming", HCF), ["teIt", "clIt"]),
+           (fn(ctx, HC, "parseContentLength", HCF), ["val", "result"]), (fn(ctx, HC, "parseHeaderBlock", HCF), ["value", "clValue"]), (fn(ctx, HC, "executeRequest", HCF), ["responseData", "effectiveCap", "len"])]
     for f, names in tab:
         common.require_names(f, names)
         r.instance()
@@ -963,7 +1654,7 @@ def run(ctx, ck):
     ck.run_rule("C15-R2", "strict numeric parse; conflicting / duplicate length information reaches a rejecting exit before framing", "A8 + A11 sibling agreement", lambda r: r2(ctx, r))
     ck.run_rule("C15-R3", "receive buffers grow only behind their caps", "A2 dominance", lambda r: r3(ctx, r))
     ck.run_rule("C15-R4", "no exception leaves the transport data callback", "A9 exception-escape over the callback call graph with handler-type coverage", lambda r: r4(ctx, r))
-    ck.run_rule("C15-R5", "every framing loop iteration consumes input or leaves", "A2 cycle analysis against per-loop progress statements", lambda r: r5(ctx, r))
-    ck.run_rule("C15-R6", "decisions use the accumulated buffer only; exact consumption; resume positions back up len-1", "A2 + dataflow (segment dead after append) + resume-scan rule", lambda r: r6(ctx, r))
+    ck.run_rule("C15-R5", "every framing loop iteration consumes input or leaves", "A2 cycle analysis against progress statements recognised by data flow (position := match from that position + k, k >= 1); helpers given the scanned buffer followed", lambda r: r5(ctx, r))
+    ck.run_rule("C15-R6", "decisions use the accumulated buffer only; exact consumption; resume positions back up len-1 / are validated record boundaries", "A2 + dataflow (segment dead after append) + resume-scan rule (origin tracing of scan starts)", lambda r: r6(ctx, r))
     ck.run_rule("C15-R7", "client framing decision follows RFC 9112 §6.3 order", "A5 predicate abstraction", lambda r: r7(ctx, r))
     ck.run_rule("C15-R8", "recognised chunked coding is decoded before Request::body; trailer section consumed", "A10 sibling agreement + A2", lambda r: r8(ctx, r))
